@@ -422,7 +422,7 @@ func datagrams(r *hx.Rand, n int) []Input {
 			k := r.Range(1, 3)
 			for j := 0; j < k; j++ {
 				lines += r.PickStr([]string{"stats\r\n", "get a\r\n", "flush_all\r\n", "version\r\n", "get k1 k2\n",
-					"set k 0 0 3\r\nabc\r\n", "add key2 1 0 11\r\nhello\r\nworld\r\n", "set z 0 0 0\r\n\r\n"})
+					"set k 0 0 3\r\nabc\r\n", "add key2 1 0 11\r\nhello\r\nworld\r\n", "set z 0 0 0\r\n\r\n", "append k 0 0 5\r\nab", "set k 0 0 5\r\n"})
 			}
 			if r.Chance(1, 6) {
 				lines += "gets half"
@@ -496,9 +496,8 @@ func generate(r *hx.Rand, tier string) []Input {
 		ins = append(ins, expand(stream{svc: "redis", units: []string{resp("PING"), strings.Repeat("*1\r\n", depth) + "$1\r\nx\r\n", resp("INFO")}}, r, false, 4)...)
 	}
 	ins = append(ins, datagrams(r, nudp)...)
-	// LAST (a handler that never returns keeps spinning until the harness exits): storage
-	// commands over UDP whose data block is cut short or missing - the datagram connection
-	// never reports end of stream
+	// storage commands over UDP whose data block is cut short or missing (the witnesses of the
+	// former spin on a datagram connection that never reported end of stream)
 	hdr := "\x00\x01\x00\x00\x00\x01\x00\x00"
 	ins = append(ins, Input{Svc: "memcached-udp", Stream: []byte(hdr + "append k 0 0 5\r\nab"), Mode: "datagram"},
 		Input{Svc: "memcached-udp", Stream: []byte(hdr + "set k 0 0 5\r\n"), Mode: "datagram"})
